@@ -996,6 +996,17 @@ def eval_copy(case, run=None):
     out['enc'] = ea
     out['base'] = base
     snap = json.dumps(strip_ids(ea), sort_keys=True)
+    if kind in FIELDS:
+        # pickle state protocol: __getstate__ keys, __setstate__ of that state on a brand-new object
+        try:
+            st = a.__getstate__()
+            nb = type(a).__new__(type(a))
+            nb.__setstate__(st)
+            out['state'] = {'keys': list(st.keys()),
+                            'restored': [_strip_slots(strip_ids(enc(getattr(nb, sl), Ids()))) if hasattr(nb, sl) else 'UNSET'
+                                         for sl in type(a).__slots__]}
+        except Exception as e:  # noqa
+            out['state'] = common.exc_json(e)
     for how in HOWS:
         r = {}
         try:
@@ -1247,6 +1258,221 @@ def _mutseq_batch(run, cases):
                          'eq / hash after an in-place change')
 
 
+# ----------------------------------------------------------------------------------------------- NocaseDict API
+
+DKEYS = ['a', 'A', 'b', 'B', 'Key', 'KEY', 'key', 'Straße', 'STRASSE', 'strasse', 'ä', 'Ä', 'µ', 'x1', None, None]
+DVALS = [None, {'V': 'str', 's': 'v'}, {'V': 'str', 's': 'V'}, {'V': 'int', 't': 'int', 'n': 1},
+         {'V': 'int', 't': 'Uint8', 'n': 2}, {'V': 'bool', 'b': True}, {'V': 'float', 't': 'float', 'x': 1.0}]
+
+
+def gen_dict_case(rng):
+    ops = []
+    for _ in range(rng.randint(3, 25)):
+        r = rng.random()
+        k = rng.choice(DKEYS)
+        v = rng.choice(DVALS)
+        if r < 0.30:
+            ops.append({'o': 'setitem', 'k': k, 'v': v})
+        elif r < 0.40:
+            ops.append({'o': 'getitem', 'k': k})
+        elif r < 0.48:
+            ops.append({'o': 'delitem', 'k': k})
+        elif r < 0.56:
+            ops.append({'o': 'contains', 'k': k})
+        elif r < 0.62:
+            ops.append({'o': 'get', 'k': k, 'v': v})
+        elif r < 0.68:
+            ops.append({'o': 'pop', 'k': k, 'v': v})
+        elif r < 0.73:
+            ops.append({'o': 'pop0', 'k': k})
+        elif r < 0.77:
+            ops.append({'o': 'popitem'})
+        elif r < 0.84:
+            ops.append({'o': 'setdefault', 'k': k, 'v': v})
+        elif r < 0.91:
+            ops.append({'o': 'update', 'items': [[rng.choice(DKEYS), rng.choice(DVALS)]
+                                                 for _ in range(rng.randint(0, 4))]})
+        elif r < 0.93:
+            ops.append({'o': 'clear'})
+        elif r < 0.96:
+            ops.append({'o': 'len'})
+        elif r < 0.98:
+            ops.append({'o': 'keys'})
+        else:
+            ops.append({'o': 'allow', 'b': rng.random() < 0.5})
+    return {'mode': 'dictops', 'allow': rng.random() < 0.5, 'ops': ops}
+
+
+def _key_json(k):
+    return None if k is None else common.cps(k)
+
+
+def _enc_ret(x, ids):
+    """encode a return value of the API; a bare object() is an internal sentinel that leaked"""
+    if type(x) is object:
+        return {'odd': 'object()'}
+    return enc(x, ids)
+
+
+def eval_dictops(case):
+    """run the op list on a real pywbem NocaseDict; outputs in the driver's format"""
+    d = ncd()()
+    d.allow_unnamed_keys = case['allow']
+    outs = []
+    ids = Ids()
+    for op in case['ops']:
+        o = op['o']
+        try:
+            k = op.get('k')
+            v = build_value(op['v']) if 'v' in op else None
+            if o == 'setitem':
+                d[k] = v
+                out = {'none': True}
+            elif o == 'getitem':
+                out = {'val': _enc_ret(d[k], ids)}
+            elif o == 'delitem':
+                del d[k]
+                out = {'none': True}
+            elif o == 'contains':
+                out = {'bool': k in d}
+            elif o == 'get':
+                out = {'val': _enc_ret(d.get(k, v), ids)}
+            elif o == 'pop':
+                out = {'val': _enc_ret(d.pop(k, v), ids)}
+            elif o == 'pop0':
+                out = {'val': _enc_ret(d.pop(k), ids)}
+            elif o == 'popitem':
+                kk, vv = d.popitem()
+                out = {'item': [_key_json(kk), enc(vv, ids)]}
+            elif o == 'setdefault':
+                out = {'val': _enc_ret(d.setdefault(k, v), ids)}
+            elif o == 'update':
+                d.update([(kk, build_value(vv)) for kk, vv in op['items']])
+                out = {'none': True}
+            elif o == 'clear':
+                d.clear()
+                out = {'none': True}
+            elif o == 'len':
+                out = {'nat': len(d)}
+            elif o == 'keys':
+                out = {'keys': [_key_json(kk) for kk, _ in d._data.values()]}
+            elif o == 'allow':
+                d.allow_unnamed_keys = op['b']
+                out = {'none': True}
+            else:
+                raise AssertionError(o)
+        except Exception as e:  # noqa
+            out = common.exc_json(e)
+        outs.append(out)
+    folded = [kk for kk in d._data.keys()]
+    return {'outs': outs, 'items': [[_key_json(kk), enc(vv, ids)] for kk, vv in d._data.values()],
+            'allow': d.allow_unnamed_keys, 'dupe': len(set(folded)) != len(folded),
+            'hash_ok': _hash_matches_rebuild(d)}
+
+
+def _hash_matches_rebuild(d):
+    """oracle: the dictionary reached through the API equals (and hashes like) one built from its items in reverse"""
+    saved = d.allow_unnamed_keys
+    try:
+        d.allow_unnamed_keys = True      # (a history may have switched it off while the unnamed key is inside)
+        e = ncd()()
+        e.allow_unnamed_keys = True
+        for kk, vv in reversed(list(d._data.values())):
+            e[kk.swapcase() if isinstance(kk, str) and kk.swapcase().casefold() == kk.casefold() else kk] = vv
+        return bool(d == e) and bool(e == d) and hash(d) == hash(e) and not (d != e)
+    except Exception as ex:  # noqa
+        return type(ex).__name__
+    finally:
+        d.allow_unnamed_keys = saved
+
+
+def _dict_worker(case):
+    return eval_dictops(case)
+
+
+def _dict_batch(run, cases):
+    evs = common.pmap(_dict_worker, cases, chunksize=64)
+    reqs = []
+    for case in cases:
+        ops = []
+        for op in case['ops']:
+            o = dict(op)
+            if 'k' in o:
+                o['k'] = _key_json(o['k'])
+            if 'v' in o:
+                o['v'] = _strip_slots(enc(build_value(o['v']), Ids()))
+            if 'items' in o:
+                o['items'] = [[_key_json(kk), _strip_slots(enc(build_value(vv), Ids()))] for kk, vv in o['items']]
+            ops.append(o)
+        reqs.append({'op': 'dictops', 'allow': case['allow'], 'ops': ops})
+    answers = common.run_driver(PROP, reqs)
+    for case, ev, ans in zip(cases, evs, answers):
+        run.case(case, nontrivial=len(ev['items']) > 0)
+        for out in ev['outs']:
+            run.count('dict:out:' + (out.get('exc') or next(iter(out))))
+        real = {'outs': strip_ids(ev['outs']), 'items': strip_ids(ev['items']), 'allow': ev['allow']}
+        model = {'outs': strip_ids(ans.get('outs')), 'items': strip_ids(ans.get('items')), 'allow': ans.get('allow')}
+        if real != model:
+            run.disagree(case, model, real, 'NocaseDict API history')
+        if ev['dupe']:
+            run.violate({'kind': 'nocasedict_duplicate_casefolded_key'}, case, ev['items'])
+        if ev['hash_ok'] is not True:
+            run.violate({'kind': 'nocasedict_not_equal_to_rebuilt_reordered_recased', 'what': str(ev['hash_ok'])},
+                        case, ev['items'])
+        for op, out in zip(case['ops'], ev['outs']):
+            if 'exc' in out and out['exc'] not in ('KeyError', 'ValueError'):
+                run.violate({'kind': 'nocasedict_api_raises', 'exc': out['exc'], 'op': op['o']}, case, out)
+            if isinstance(out.get('val'), dict) and 'odd' in out['val']:
+                run.violate({'kind': 'nocasedict_api_returns_internal_sentinel', 'op': op['o']}, case, out)
+
+
+# ----------------------------------------------------------------------------------------------- other-class pairs
+
+def gen_xkind_case(rng):
+    cims = [t for t in TOP if t[0] in FIELDS]
+    (ka, ga), (kb, gb) = rng.choice(cims), rng.choice(cims)
+    return {'mode': 'xkind', 'kinds': [ka, kb], 'specs': [ga(rng), gb(rng)]}
+
+
+def eval_xkind(case):
+    try:
+        a, b = build(case['specs'][0]), build(case['specs'][1])
+    except Exception:  # noqa
+        return None
+    try:
+        r = {'ok': bool(a == b)}
+    except Exception as e:  # noqa
+        r = common.exc_json(e)
+    try:
+        n = {'ok': bool(a != b)}
+    except Exception as e:  # noqa
+        n = common.exc_json(e)
+    return {'eq': r, 'ne': n, 'encs': [enc(a, Ids()), enc(b, Ids())]}
+
+
+def _xkind_worker(case):
+    return eval_xkind(case)
+
+
+def _xkind_batch(run, cases):
+    evs = common.pmap(_xkind_worker, cases, chunksize=64)
+    kept = [(c, e) for c, e in zip(cases, evs) if e is not None and not any(has_nan(x) for x in e['encs'])]
+    reqs = [{'op': 'eqtop', 'a': _strip_slots(e['encs'][0]), 'b': _strip_slots(e['encs'][1])} for _, e in kept]
+    answers = common.run_driver(PROP, reqs) if reqs else []
+    for (case, ev), ans in zip(kept, answers):
+        same = case['kinds'][0] == case['kinds'][1]
+        run.case(case, nontrivial=not same)
+        run.count('xkind:' + ('same' if same else 'other') + ':' + (ev['eq'].get('exc') or 'ok'))
+        if ans != ev['eq']:
+            run.disagree(case, ans, ev['eq'], '== between objects of two classes')
+        # oracle: same class -> a boolean; other class -> the documented TypeError, for == and != alike
+        if same and 'ok' not in ev['eq']:
+            run.violate({'kind': 'eq_raises', 'cls': case['kinds'][0], 'exc': ev['eq'].get('exc')}, case, ev['eq'])
+        if not same and (ev['eq'].get('exc') != 'TypeError' or ev['ne'].get('exc') != 'TypeError'):
+            run.violate({'kind': 'other_class_comparison_not_typeerror', 'kinds': case['kinds']}, case,
+                        {'eq': ev['eq'], 'ne': ev['ne']})
+
+
 # ----------------------------------------------------------------------------------------------- run
 
 def _strip_slots(j):
@@ -1265,6 +1491,13 @@ def _copy_worker(case):
     return eval_copy(case)
 
 
+def _timed(run, fn, cases):
+    import time
+    t0 = time.time()
+    fn(run, cases)
+    run.count('wall_ms:' + fn.__name__.strip('_'), int((time.time() - t0) * 1000))
+
+
 def _register_module():
     """./check loads this file under a name that is not in sys.modules; the fork pool pickles workers by name"""
     import sys
@@ -1278,8 +1511,8 @@ def _register_module():
 def run(run):
     _register_module()
     rng = run.rng
-    n_cmp = 100000 if run.thorough else 10000
-    n_copy = 20000 if run.thorough else 2500
+    n_cmp = 100000 if run.thorough else 8000
+    n_copy = 20000 if run.thorough else 2000
     n_mut = 12000 if run.thorough else 1500
     run.rule = ('cmp: seeded random object of one of 11 kinds (9 CIM classes, CIMDateTime, NocaseDict; nesting depth <= 3; '
                 'names from a 24-name pool with case variants and non-ASCII spellings), then b = variant(a), c = variant(b|a) '
@@ -1287,6 +1520,10 @@ def run(run):
                 'all 8 ordered pairs among a, b, c and a rebuilt twin of a: ==, !=, hash equality, set and dict membership. '
                 'copy: one object, copy()/copy.copy/deepcopy/pickle: equality, id()-walk sharing shape, then one mutation of the '
                 'copy per site outside the documented shared set and comparison of the original with its snapshot. '
+                'dictops: 3..25 random calls of the NocaseDict API (setitem/getitem/delitem/in/get/pop/popitem/setdefault/update/'
+                'clear/len/keys/allow_unnamed_keys toggles) with keys from 14 spellings of 6 casefold classes + None: every return '
+                'value / exception class and the final item list (original spellings, order) against the model. '
+                'xkind: == and != between objects of two random CIM classes (TypeError expected unless same class). '
                 'mutseq: one object, up to 6 random in-place change sites (item assignment/deletion/update on every dict, path and '
                 'instance, key-property propagation, list append/pop, attribute re-binding, at every depth): hash it, change it, and '
                 'compare ==, hash and set membership with an equal object built and changed without having been hashed before. '
@@ -1305,19 +1542,28 @@ def run(run):
     while done < n_cmp:
         m = min(CMP_BATCH, n_cmp - done)
         done += m
-        _cmp_batch(run, [gen_case(rng) for _ in range(m)])
+        _timed(run, _cmp_batch, [gen_case(rng) for _ in range(m)])
     # ---- copy cases
     done = 0
     while done < n_copy:
         m = min(COPY_BATCH, n_copy - done)
         done += m
-        _copy_batch(run, [gen_copy_case(rng) for _ in range(m)])
+        _timed(run, _copy_batch, [gen_copy_case(rng) for _ in range(m)])
+    # ---- NocaseDict API histories, comparisons across classes
+    n_dict = 30000 if run.thorough else 4000
+    n_x = 6000 if run.thorough else 800
+    done = 0
+    while done < n_dict:
+        m = min(CMP_BATCH, n_dict - done)
+        done += m
+        _timed(run, _dict_batch, [gen_dict_case(rng) for _ in range(m)])
+    _timed(run, _xkind_batch, [gen_xkind_case(rng) for _ in range(n_x)])
     # ---- hash / change in place / compare with a never-hashed equal object
     done = 0
     while done < n_mut:
         m = min(COPY_BATCH, n_mut - done)
         done += m
-        _mutseq_batch(run, [gen_mutseq_case(rng) for _ in range(m)])
+        _timed(run, _mutseq_batch, [gen_mutseq_case(rng) for _ in range(m)])
 
 
 CMP_BATCH = 5000
@@ -1359,6 +1605,9 @@ def _cmp_batch(run, cases):
                 run.disagree(case, m, r, 'eq/ne of pair %d,%d' % (i, j))
             if nan:
                 continue            # hash(nan) depends on the object identity (CPython >= 3.10)
+            if isinstance(r.get('inset'), bool) and r['inset'] != m.get('in') and isinstance(r['heq'], bool) and \
+                    not (r['heq'] and not m['heq']):
+                run.disagree(case, m, r, 'set membership (pyIn) of pair %d,%d' % (i, j))
             if isinstance(r['heq'], bool):
                 if m['heq'] and not r['heq']:
                     run.disagree(case, m, r, 'model hashes equal, real hashes differ, pair %d,%d' % (i, j))
@@ -1387,9 +1636,20 @@ def _copy_batch(run, ccases):
             reqs.append({'op': 'copy', 'how': {'pickle': 'deep'}.get(how, how), 'a': _strip_slots(ev['enc']),
                          'base': ev['base']})
             kept.append((case, ev, how))
+    for case, ev in zip(ccases, cevs):
+        if ev is not None and 'state' in ev:
+            reqs.append({'op': 'state', 'a': _strip_slots(ev['enc'])})
+            kept.append((case, ev, 'state'))
     answers = common.run_driver(PROP, reqs) if reqs else []
     seen_case = set()
     for (case, ev, how), ans in zip(kept, answers):
+        if how == 'state':
+            real = ev['state']
+            model = {'keys': ans.get('keys'), 'restored': strip_ids(ans.get('restored'))}
+            run.count('copy:state:' + ('exc' if 'exc' in real else 'ok'))
+            if real != model:
+                run.disagree(case, model, real, '__getstate__ / __setstate__')
+            continue
         if id(case) not in seen_case:
             seen_case.add(id(case))
             run.case({'kind': case['kind'], 'spec': case['spec'], 'mode': 'copy'},
